@@ -8,6 +8,7 @@ by the dds-free run, at every step, whatever was evaluated before against the sa
 """
 import json
 
+from .c05 import dec as c05dec
 from . import common, hist, pipeline, progs
 
 DESIGN_REF = "DESIGN.md §5 C01"
@@ -25,8 +26,18 @@ def run(ctx):
     thorough = ctx["tier"] == "thorough"
     common.import_dds()
 
+    uc = progs.UniverseCheck()
+    from dds.fun_args import dds_hash as _dds_hash
+
+    def hash_fn(v):
+        try:
+            return _dds_hash(c05dec(v))
+        except Exception as e:  # unsupported value: no hash, no collision
+            return "exc:" + repr(v)
+
     def on_record(rec, s):
         res.evaluations += 1
+        uc.add_world(progs.model_world(rec.world, "extmod"), hash_fn)
         res.count("edit_" + rec.edit["kind"])
         res.count("store_" + rec.store_kind)
         res.count("entry_" + rec.entry["kind"])
@@ -71,6 +82,10 @@ def run(ctx):
         res.sample({"step": r0.brief(), "dds": r0.real["value"], "plain": r0.ref["value"], "executed": r0.real["log"],
                     "source": progs.render_world(r0.world, "extmod")})
     pipeline.close_ref()
+    # the hypotheses of C01.sig_sound / memo_correct / history_correct on everything that was generated
+    res.count("universe_function_versions", uc.functions)
+    for pb in sorted(set(uc.problems))[:5]:
+        res.disagreements.append({"what": "hypothesis of the Lean theorems (structure Universe) not met by a generated program: " + pb})
     res.rule = ("seeded histories over generated pipelines (2..8 functions; call / reference / keep with literal, run-time, default and "
                 "keyword arguments / data functions; module variables int, str, list, dict) x edits {body, variable, literal argument, "
                 "unrelated additions, reordering, non-accepted code, revert, restart, copy to another module, entry-style switch} x "
